@@ -72,6 +72,8 @@ namespace detail
 		template<typename genType>
 		GLM_FUNC_QUALIFIER static genType call(genType Source, genType Multiple)
 		{
+			if(std::fmod(Source, Multiple) == genType(0))
+				return Source; // already a multiple
 			if(Source > genType(0))
 				return Source + (Multiple - std::fmod(Source, Multiple));
 			else
@@ -116,6 +118,8 @@ namespace detail
 		template<typename genType>
 		GLM_FUNC_QUALIFIER static genType call(genType Source, genType Multiple)
 		{
+			if(std::fmod(Source, Multiple) == genType(0))
+				return Source; // already a multiple
 			if(Source >= genType(0))
 				return Source - std::fmod(Source, Multiple);
 			else
